@@ -1,5 +1,7 @@
 """Run-time helpers imported by generated programs. This module is NOT accepted by dds on purpose:
 its functions are tracked by name only, and the execution log is not a tracked variable."""
+import dataclasses
+
 LOG = []
 
 
@@ -39,6 +41,12 @@ class BoomBase(BaseException):
     pass
 
 
+@dataclasses.dataclass(frozen=True)
+class BoomFrozen(Exception):
+    """an exception whose instances refuse attribute assignment (a frozen dataclass)"""
+    token: str
+
+
 RAISED = []
 
 
@@ -53,6 +61,8 @@ def boom(kind, token):
         e = GeneratorExit(token)
     elif kind == "BoomBase":
         e = BoomBase(token)
+    elif kind == "BoomFrozen":
+        e = BoomFrozen(token)
     else:
         # any built-in exception class, by name (KeyError, StopIteration, FileNotFoundError, ...)
         import builtins
